@@ -64,7 +64,8 @@ def main():
     notes = open(os.path.join(d, 'notes.txt')).read() if os.path.exists(os.path.join(d, 'notes.txt')) else ''
     meta = {'id': sid, 'breaks_property': prop, 'needs_to_manifest': notes.strip()[:1500],
             'confirmation': {k: out[k] for k in ('suite_with_change', 'demo_with_change_rc', 'demo_original_rc', 'confirmed')},
-            'ran': {'checks': results, 'how': 'VERIF_REPO=<scratch worktree with the patch applied> python3-vt run.py check <id> --tier quick'},
+            'ran': {'checks': results, 'only': only or 'whole quick check',
+                    'how': 'VERIF_REPO=<scratch worktree with the patch applied> python3-vt run.py check <id> --tier quick [--only <ran.only>]'},
             'detected': out['detected']}
     json.dump(meta, open(os.path.join(d, 'meta.json'), 'w'), indent=1)
     return 0
